@@ -263,7 +263,9 @@ def base_urls():
     pd_hosts = ["facebook.com", "m.facebook.com", "notfacebook.com", "youtube.com", "www.youtube.com", "myyoutube.com"]
     pd_queries = ["_rdr&x=1", "_rdc=1&_rdr", "t=10&v=1", "si=abc&ab_channel=x&v=1"]
     paths = ["", "/", "/a", "/a/", "/A/b/", "/index.html", "/a/index.php", "/a/default.aspx", "/index", "/a/indexes.html", "/a/amp", "/a/amp/", "/a.amp", "/a.amp.html",
-             "/camp", "/a/../b/./c//d", "/a%2Fb", "/a/INDEX.html", "/a/index.html/"]
+             "/camp", "/a/../b/./c//d",
+             # a last segment that only STARTS like an index page
+             "/docs/index.v2.html", "/a/default.min.css", "/news/index.amp.html", "/index.php.bak", "/a/index..html", "/a%2Fb", "/a/INDEX.html", "/a/index.html/"]
     queries = [None, "id=1", "b=2&a=1", "utm_source=x&id=1", "id=1&utm_campaign=y&page=2", "id=1&amp;page=2", "q=%41&k=a+b", "amp=1&x=1", "x=1&fbclid=abc",
                # an ESCAPED ampersand is data, whatever follows it
                "q=Tom%26amp%3BJerry&page=2", "q=a%26amp;b", "k%26amp%3B=1",
